@@ -29,7 +29,7 @@ def C15(tier):
     inv = ["TypeOK", "BagInv", "CursorInv", "LoopInv", "DoneOK", "PanicIffOutOfRange", "TwinOK"]
     models = [
         dict(module="Partition", name="MC_Partition",
-             cfg=dict(constants=dict(FIX, N=n_mc, NMin=0, OutOfRange=True, Emit=False), invariants=inv, properties=["Terminates"])),
+             cfg=dict(constants=dict(FIX, N=n_mc, NMin=0, OutOfRange=True, Emit=False), invariants=inv, properties=["Terminates", "RefinesProof"])),
         dict(module="Partition", name="MC_Partition_emit", emit=True,
              cfg=dict(constants=dict(FIX, N=n_emit, NMin=1, OutOfRange=False, Emit=True), invariants=["DoneOK", "PanicIffOutOfRange", "EmitInv"],
                       properties=["RefinesProof"])),
@@ -105,10 +105,14 @@ def C16(tier):
     inv_p = ["TypeOK", "BagInv", "CursorInv", "PanicIffOutOfRange"]
     models = [
         dict(module="Partition", name="MC_Partition_oor",
-             cfg=dict(constants=dict(FIX, N=q(tier, 5, 6), NMin=0, OutOfRange=True, Emit=False), invariants=inv_p, properties=["Terminates"])),
+             cfg=dict(constants=dict(FIX, N=q(tier, 5, 6), NMin=0, OutOfRange=True, Emit=False), invariants=inv_p, properties=["Terminates", "RefinesProof"])),
         dict(module="Select", name="MC_Select_oor",
              cfg=dict(constants=dict(FIX, N=q(tier, 5, 6), NMin=0, OutOfRange=True, Emit=False),
-                      invariants=["TypeOK", "BagInv", "PanicIffOutOfRange"], properties=["Terminates"], view="view")),
+                      invariants=["TypeOK", "BagInv", "PanicIffOutOfRange"], properties=["Terminates", "RefinesProof"], view="view")),
+        # every length: in-range positions never panic, out-of-range ones are rejected at once and nothing is returned or
+        # rearranged (TLAPS on PartitionAlg / SelectAlg); the two models above check the refinement, out-of-range positions included
+        dict(engine="tlaps", module="PartitionProof", name="TLAPS_PartitionProof", deps=["PartitionAlg"]),
+        dict(engine="tlaps", module="SelectProof", name="TLAPS_SelectProof", deps=["SelectAlg"]),
     ]
     for dbg in (True, False):
         models.append(dict(module="Bulk", name="MC_Bulk_oor_dbg%d" % dbg,
